@@ -476,7 +476,11 @@ func (e *Engine) heapKey(kind string, t types.Type, j int) (string, Sort) {
 	if j >= len(l) {
 		panic(unsupported{fmt.Sprintf("heap access to component %d of %s (layout has %d)", j, typeKey(t), len(l))})
 	}
-	k := fmt.Sprintf("%s:%s#%d", kind, typeKey(t), j)
+	tk := typeKey(t)
+	if tk == "bytes.Reader" {
+		tk = "bytes.Buffer" // one ghost stream memory for readers and buffers (io.Reader values point into it)
+	}
+	k := fmt.Sprintf("%s:%s#%d", kind, tk, j)
 	var s Sort
 	if kind == "M" {
 		s = ArrOf(ArrOf(l[j].Sort))
